@@ -85,6 +85,16 @@ func c08Fixpoint(x *mc.Exec, schema *j.Schema, raw string, u *j.URL) (s1 string,
 		return "", false
 	}
 	x.R.Add("transitions", 1)
+	// String() must not change what is read from the URL, and is repeatable
+	if d := diffViews(v1, viewOf(u)); d != "" {
+		x.Fail("C08:string-changed-url:"+strings.SplitN(d, " ", 2)[0], "String() changed the URL parsed from %q: %s", raw, d)
+		return s1, false
+	}
+	var again string
+	if p := Try(func() { again = u.String() }); p != "" || again != s1 {
+		x.Fail("C08:string-not-repeatable", "String() of the URL parsed from %q gives %q, then %q (panic %q)", raw, s1, again, p)
+		return s1, false
+	}
 	var u2 *j.URL
 	var err error
 	if p := Try(func() { u2, err = j.NewURLFromRaw(schema, s1) }); p != "" {
@@ -284,18 +294,20 @@ func c08Trees(x *mc.Exec) {
 			return `{"f":"y","o":"<","v":5}`
 		case 2:
 			k := x.Choose(3, "fan")
+			col := []string{"", `,"c":"en"`}[x.Choose(2, "collation")]
 			kids := []string{}
 			for i := 0; i < k; i++ {
 				kids = append(kids, build(dep-1))
 			}
-			return `{"o":"and","v":[` + strings.Join(kids, ",") + `]}`
+			return `{"o":"and","v":[` + strings.Join(kids, ",") + `]` + col + `}`
 		default:
 			k := x.Choose(3, "fan")
+			col := []string{"", `,"c":"en"`}[x.Choose(2, "collation")]
 			kids := []string{}
 			for i := 0; i < k; i++ {
 				kids = append(kids, build(dep-1))
 			}
-			return `{"o":"or","v":[` + strings.Join(kids, ",") + `]}`
+			return `{"o":"or","v":[` + strings.Join(kids, ",") + `]` + col + `}`
 		}
 	}
 	depth := 2
@@ -320,7 +332,7 @@ func c08Trees(x *mc.Exec) {
 func init() {
 	Register(&Prop{
 		ID: "C08",
-		Rule: "Engine A, all choices Full: every URL of the C07 query space (16 paths x ordered sequences of 0..2, thorough 3, parameters from the ~100-instance menu) that the parser accepts; ids, page values, page keys, filter labels and filter strings containing each of 12 reserved-character samples (space & ? # % + / = , non-ASCII) at 6 positions; every and/or filter tree of depth <= 2 (thorough 3) and fan-out <= 2. Oracle: String() parses, the re-parsed URL has the same fragments, type, id, relationship, field selection, sorting rules, page map (collection URLs), filter label / canonical filter JSON, and its String() is the same text; every permutation of differently named parameters, reversal of fields/include lists and insertion of empty items yields the same String(). Non-trivial = accepted URL",
+		Rule: "Engine A, all choices Full: every URL of the C07 query space (16 paths x ordered sequences of 0..2, thorough 3, parameters from the ~100-instance menu) that the parser accepts; ids, page values, page keys, filter labels and filter strings containing each of 12 reserved-character samples (space & ? # % + / = , non-ASCII) at 6 positions; every and/or filter tree of depth <= 2 (thorough 3) and fan-out <= 2 with and without a collation on each operator node. Oracle: String() parses, the re-parsed URL has the same fragments, type, id, relationship, field selection, sorting rules, page map (collection URLs), filter label / canonical filter JSON, and its String() is the same text; String() itself changes nothing read from the URL and is repeatable; every permutation of differently named parameters, reversal of fields/include lists and insertion of empty items yields the same String(). Non-trivial = accepted URL",
 		Assumptions: []string{"'page parameters' = the whole Page map of a collection URL"},
 		Harnesses: []Harness{
 			{Name: "C08/space", Body: c08Space},
